@@ -88,4 +88,37 @@ def scenario (n : List Nat) : List String :=
   let h4 := liftRole (hasRole s5 a n)
   [showR r1, showB h0, showR r2, showB h1, showR r3, showB h2, showR r4, showB h3, showR r5, showB h4]
 
+/-! ### name UPDATES on an existing record (`TokenConfigExt::update`: `self.name = fixed_str_to_bytes(name)?`) -/
+
+/-- one update of the stored 32-byte name field: the WHOLE field is rewritten with the encoding of the new name;
+a rejected name leaves the record as it was (the transaction fails). -/
+def tcStep (stored : List Nat) (n : List Nat) : List Nat :=
+  match toBytes 32 n with
+  | .ok b => b
+  | .error _ => stored
+
+/-- a history of updates on one record -/
+def tcRun (stored : List Nat) : List (List Nat) → List Nat
+  | [] => stored
+  | n :: ns => tcRun (tcStep stored n) ns
+
+/-- the encoding of the last accepted name of a history (if any) -/
+def lastOk : List (List Nat) → Option (List Nat)
+  | [] => none
+  | n :: ns =>
+    match lastOk ns with
+    | some b => some b
+    | none => match toBytes 32 n with | .ok b => some b | .error _ => none
+
+def showStep (r : Except FixedStr.Err (List Nat)) : String :=
+  match r with
+  | .ok _ => "ok"
+  | .error .tooLong => "ExceedMaxLengthLimit"
+  | .error _ => "InvalidArgument"
+
+/-- harness scenario: per update `outcome:name read back afterwards` on a record that starts zeroed -/
+def tcScenario : List Nat → List (List Nat) → List (String × Except FixedStr.Err (List Nat))
+  | _, [] => []
+  | st, n :: ns => (showStep (toBytes 32 n), fromBytes 32 (tcStep st n)) :: tcScenario (tcStep st n) ns
+
 end Gmx.RoleNames
